@@ -8,7 +8,10 @@ use crate::logs::HasLogger;
 use crate::storage::FileManager;
 use crate::{AccountSync, EndpointSync};
 use acme_common::error::Error;
+#[cfg(not(feature = "breard_r_acmed_verif"))]
 use async_lock::RwLock;
+#[cfg(feature = "breard_r_acmed_verif")]
+use crate::verif_probe::traced::RwLock;
 use futures::stream::FuturesUnordered;
 use futures::StreamExt;
 use std::collections::HashMap;
